@@ -83,6 +83,12 @@ Arrs(iw, dw) == { <<ArrN("m", iw, dw)>>, <<ArrN("n", iw, dw)>> }
                 \cup { <<LitN(v), ConstArrN(1, iw, dw)>> : v \in (IF dw <= 2 THEN BVs(dw) ELSE BasicLits(dw)) }
                 \cup { <<ArrN("m", iw, dw), SymN("i", iw), SymN("x", dw), StoreN(1, 2, 3)>> }
                 \cup { <<ArrN("m", iw, dw), LitN(Zero(iw)), SymN("x", dw), StoreN(1, 2, 3)>> }
+\* depth-1 array terms (an array if-then-else or store below another array operator: the evaluator keeps arrays on their own stack)
+ArrRich(iw, dw) == Arrs(iw, dw)
+                \cup { <<SymN("p", 1), ArrN("m", iw, dw), ArrN("n", iw, dw), Op3("arrite", 0, 1, 2, 3)>>,
+                       <<LitN(<<1>>), ArrN("m", iw, dw), ArrN("n", iw, dw), Op3("arrite", 0, 1, 2, 3)>>,
+                       <<LitN(<<0>>), ArrN("m", iw, dw), ArrN("n", iw, dw), Op3("arrite", 0, 1, 2, 3)>>,
+                       <<SymN("q", 1), ArrN("n", iw, dw), ArrN("m", iw, dw), SymN("i", iw), SymN("x", dw), StoreN(3, 4, 5), Op3("arrite", 0, 1, 2, 6)>> }
 ArrIw == IF WD <= 4 THEN {1, 2} ELSE {1, 3}
 
 Init ==
@@ -105,8 +111,18 @@ Init ==
        LET t == m \o Shift(i, Len(m)) \o Shift(x, Len(m) + Len(i)) IN
        d = [nodes |-> t \o <<StoreN(Len(m), Len(m) + Len(i), Len(t))>> \o Shift(j, Len(t) + 1)
                         \o <<ReadN(WD, Len(t) + 1, Len(t) + 1 + Len(j))>>]
-  \/ \E iw \in ArrIw : \E m \in Arrs(iw, WD) : \E n \in Arrs(iw, WD) :
+  \/ \E iw \in ArrIw : \E m \in ArrRich(iw, WD) : \E n \in ArrRich(iw, WD) :
        d = [nodes |-> m \o Shift(n, Len(m)) \o <<Op2("arreq", 1, Len(m), Len(m) + Len(n))>>]
+  \* nested array if-then-else / store / read over depth-1 array terms
+  \/ \E iw \in {1} : \E c \in SymK(1) \cup LitK(1) : \E m \in ArrRich(iw, WD) : \E n \in ArrRich(iw, WD) : \E i \in SymK(iw) :
+       LET t == c \o Shift(m, Len(c)) \o Shift(n, Len(c) + Len(m)) IN
+       /\ (m \notin Arrs(iw, WD) \/ n \notin Arrs(iw, WD))
+       /\ d = [nodes |-> t \o <<Op3("arrite", 0, Len(c), Len(c) + Len(m), Len(t))>> \o Shift(i, Len(t) + 1)
+                           \o <<ReadN(WD, Len(t) + 1, Len(t) + 1 + Len(i))>>]
+  \/ \E iw \in {1} : \E m \in ArrRich(iw, WD) \ Arrs(iw, WD) : \E i \in LeafB(iw) : \E x \in SymK(WD) : \E j \in SymK(iw) :
+       LET t == m \o Shift(i, Len(m)) \o Shift(x, Len(m) + Len(i)) IN
+       d = [nodes |-> t \o <<StoreN(Len(m), Len(m) + Len(i), Len(t))>> \o Shift(j, Len(t) + 1)
+                        \o <<ReadN(WD, Len(t) + 1, Len(t) + 1 + Len(j))>>]
   \/ \E iw \in ArrIw : \E c \in SymK(1) \cup LitK(1) : \E m \in Arrs(iw, WD) : \E n \in Arrs(iw, WD) : \E i \in SymK(iw) :
        LET t == c \o Shift(m, Len(c)) \o Shift(n, Len(c) + Len(m)) IN
        d = [nodes |-> t \o <<Op3("arrite", 0, Len(c), Len(c) + Len(m), Len(t))>> \o Shift(i, Len(t) + 1)
